@@ -230,6 +230,10 @@ impl ParseState {
         path: &[Key],
         dotted: bool,
     ) -> Result<&'t mut Table, CustomError> {
+        // Levels of nesting the path walks through.  An array of tables is two of them (the array
+        // and its element), so chained `[[a]]`, `[[a.b]]`, ... headers nest twice as deep as the
+        // number of keys, which is all the key parser has checked.
+        let mut depth = 0;
         for (i, key) in path.iter().enumerate() {
             let entry = table.entry_format(key).or_insert_with(|| {
                 let mut new_table = Table::new();
@@ -257,6 +261,7 @@ impl ParseState {
                     let index = array.len() - 1;
                     let last_child = array.get_mut(index).unwrap();
 
+                    depth += 2;
                     table = last_child;
                 }
                 Item::Table(ref mut sweet_child_of_mine) => {
@@ -269,10 +274,12 @@ impl ParseState {
                             table: None,
                         });
                     }
+                    depth += 1;
                     table = sweet_child_of_mine;
                 }
                 Item::None => unreachable!(),
             }
+            crate::parser::prelude::RecursionCheck::check_depth(depth)?;
         }
         Ok(table)
     }
